@@ -1,0 +1,36 @@
+//go:build verif
+
+// Contracts for Save / ToBytes over the I/O model of /verif/engine (property C05).
+// Comments only: with or without the build tag this file adds no code to the package.
+package document
+
+// docParts: the package-level containers every constructor (New, Open*, cloneDocument) allocates.
+//@ spec docParts(d *Document) bool = d != nil && d.Body != nil && d.parts != nil && d.contentTypes != nil && d.relationships != nil && d.documentRelationships != nil && d.styleManager != nil
+
+// Save returns nil only if no I/O call failed, every resource it opened (the file, the zip writer) was
+// closed successfully, and the archive holds exactly the parts of the in-memory package at that moment.
+//@ func (*Document).Save
+//@ props C05
+//@ requires docParts(d) && !ioFailed()
+//@ ensures result == nil ==> !ioFailed()
+//@ ensures result == nil ==> openCount() == old(openCount())
+//@ ensures result == nil ==> forall k string :: zipHas(k) <==> has(d.parts, k)
+//@ ensures result == nil ==> forall k string :: has(d.parts, k) ==> zipData(k) == d.parts[k]
+//@ loop 1
+//@   invariant !ioFailed() && openCount() == old(openCount()) + 2 && file != zipWriter && isOpen(file) && isOpen(zipWriter)
+//@   invariant forall k string :: zipHas(k) <==> seen(k)
+//@   invariant forall k string :: seen(k) ==> has(d.parts, k) && zipData(k) == d.parts[k]
+
+// ToBytes: the same archive content as Save (both follow the same five serialisation steps and then
+// write d.parts), all writes and the final Close checked.
+//@ func (*Document).ToBytes
+//@ props C05
+//@ requires docParts(d) && !ioFailed()
+//@ ensures err == nil ==> !ioFailed()
+//@ ensures err == nil ==> openCount() == old(openCount())
+//@ ensures err == nil ==> forall k string :: zipHas(k) <==> has(d.parts, k)
+//@ ensures err == nil ==> forall k string :: has(d.parts, k) ==> zipData(k) == d.parts[k]
+//@ loop 1
+//@   invariant !ioFailed() && openCount() == old(openCount()) + 1 && isOpen(zipWriter)
+//@   invariant forall k string :: zipHas(k) <==> seen(k)
+//@   invariant forall k string :: seen(k) ==> has(d.parts, k) && zipData(k) == d.parts[k]
